@@ -34,7 +34,7 @@ func c46(c *Ctx) {
 	var srcCall, dstCall *ssa.Call
 	for _, in := range Calls(H+"stripPrefix").F(c.P, fn) {
 		call := in.(*ssa.Call)
-		switch a := call.Call.Args[1]; {
+		switch a := BaselineArgs(&call.Call)[1]; {
 		case Term(a) == "$1.URL.Path":
 			srcCall = call
 		case DependsOn(a, IsCallTo("net/url.Parse")):
@@ -45,9 +45,9 @@ func c46(c *Ctx) {
 		c.Undecided("anchor", hcm+": stripPrefix of the request path and of the Destination path", "not found")
 		return
 	}
-	c.Check(DependsOn(dstCall.Call.Args[1], func(v ssa.Value) bool {
+	c.Check(DependsOn(BaselineArgs(&dstCall.Call)[1], func(v ssa.Value) bool {
 		call, ok := v.(*ssa.Call)
-		return ok && IsCallTo("(net/http.Header).Get")(v) && Term(call.Call.Args[1]) == `"Destination"`
+		return ok && IsCallTo("(net/http.Header).Get")(v) && Term(BaselineArgs(&call.Call)[1]) == `"Destination"`
 	}), "derives-from", hcm+": destination derives from the Destination header", dstCall.Pos(), "", "dst does not come from the Destination header")
 	src, dst := Term(srcCall)+"#0", Term(dstCall)+"#0"
 	isSrc := func(v ssa.Value) bool { e, ok := v.(*ssa.Extract); return ok && e.Tuple == srcCall && e.Index == 0 }
@@ -116,7 +116,7 @@ func c46(c *Ctx) {
 	// ---- copyFiles (interface calls: Args exclude the receiver, so ctx=0, name=1, ...)
 	isArg := func(i int, term string) func(ssa.Instruction) bool {
 		return func(in ssa.Instruction) bool {
-			a := in.(ssa.CallInstruction).Common().Args
+			a := BaselineArgs(in.(ssa.CallInstruction).Common())
 			return i < len(a) && Term(a[i]) == term
 		}
 	}
@@ -138,7 +138,7 @@ func c46(c *Ctx) {
 	isOpenOf := func(name string) func(ssa.Value) bool {
 		return func(v ssa.Value) bool {
 			call, ok := v.(*ssa.Call)
-			return ok && call.Call.IsInvoke() && call.Call.Method.Name() == "OpenFile" && Term(call.Call.Args[1]) == name
+			return ok && call.Call.IsInvoke() && call.Call.Method.Name() == "OpenFile" && Term(BaselineArgs(&call.Call)[1]) == name
 		}
 	}
 	fileOf := func(v ssa.Value, name string) bool {
@@ -157,7 +157,7 @@ func c46(c *Ctx) {
 		return ok && e.Index == 0 && isOpenOf(name)(e.Tuple)
 	}
 	c.Count(copyF, Calls("io.Copy").Where("into the file opened at dst, from the file opened at src", func(in ssa.Instruction) bool {
-		a := in.(*ssa.Call).Call.Args
+		a := BaselineArgs(&in.(*ssa.Call).Call)
 		return fileOf(a[0], "$3") && fileOf(a[1], "$2")
 	}), 1, 1)
 	c.Count(copyF, Calls("io.Copy"), 1, 1)
@@ -169,7 +169,7 @@ func c46(c *Ctx) {
 				return ""
 			}
 			head := ""
-			Backward(call.Call.Args[0], func(x ssa.Value) bool {
+			Backward(BaselineArgs(&call.Call)[0], func(x ssa.Value) bool {
 				if a, ok := x.(*ssa.Alloc); ok {
 					for _, r := range *a.Referrers() {
 						if ia, ok := r.(*ssa.IndexAddr); ok && Term(ia.Index) == "0" {
@@ -187,7 +187,7 @@ func c46(c *Ctx) {
 			return head
 		}
 		c.Count(copyF, rec.Where("src=path.Join(src,…), dst=path.Join(dst,…)", func(in ssa.Instruction) bool {
-			a := in.(*ssa.Call).Call.Args
+			a := BaselineArgs(&in.(*ssa.Call).Call)
 			return joinHead(a[2]) == "$2" && joinHead(a[3]) == "$3"
 		}), 1, 1)
 		c.Count(copyF, rec.ArgIs(6, "($6+1)").ArgIs(4, "$4").ArgIs(1, "$1"), 1, 1)
@@ -216,7 +216,7 @@ func c46(c *Ctx) {
 				if !ok {
 					continue
 				}
-				for _, a := range ci.Common().Args {
+				for _, a := range BaselineArgs(ci.Common()) {
 					if WdIsParam(mf, 2)(a) {
 						n++
 						if !ci.Common().IsInvoke() || ci.Common().Method.Name() != "Rename" {
